@@ -367,7 +367,10 @@ func dirBranches(f *ssa.Function) (zero, other *ssa.BasicBlock) {
 	return nil, nil
 }
 
+var dropChecked = map[*ssa.Function]bool{}
+
 func runC18(c *Ctx) {
+	dropChecked = map[*ssa.Function]bool{}
 	p := c.P
 	setUnitExclude()
 	// ---------------- dpipe ----------------
@@ -546,6 +549,37 @@ func runC18(c *Ctx) {
 			}
 		}
 	}
+	// nothing is written behind the caller's slice: its capacity is never consulted and it is not re-sliced
+	// beyond its length
+	{
+		bufP := dr.Params[1]
+		instrsOfU(dr, func(in ssa.Instruction) {
+			switch x := in.(type) {
+			case *ssa.Call:
+				if b, ok := x.Call.Value.(*ssa.Builtin); ok && b.Name() == "cap" && derivesFrom(x.Call.Args[0], func(v ssa.Value) bool { return sameOrigin(v, ssa.Value(bufP)) }, false) {
+					o.Fail(in.Pos(), "Read consults the capacity of the caller's slice: a message is cut to the length of the slice handed in, bytes behind it belong to the caller")
+				}
+			case *ssa.Slice:
+				if x.High == nil || !sameOrigin(x.X, ssa.Value(bufP)) {
+					return
+				}
+				hi := origin(x.High)
+				okHi := isLenOf(hi, func(v ssa.Value) bool { return sameOrigin(v, ssa.Value(bufP)) }) || isCall2(hi, "builtin.min")
+				if !okHi {
+					okHi = hasFact(in, func(ft fact) bool {
+						cm, ok := normCmp(ft.Cond, ft.Val)
+						if !ok || (cm.Op != token.LEQ && cm.Op != token.LSS) {
+							return false
+						}
+						return sameOrigin(cm.X, hi) && isLenOf(origin(cm.Y), func(v ssa.Value) bool { return sameOrigin(v, ssa.Value(bufP)) })
+					})
+				}
+				if !okHi {
+					o.Fail(in.Pos(), "Read re-slices the caller's slice up to a bound that is not known to be within its length (it can reach into the capacity behind it)")
+				}
+			}
+		})
+	}
 	if msg == nil {
 		o.Fail(dr.Pos(), "Read does not receive a message from the read channel")
 	} else {
@@ -681,6 +715,57 @@ func runC18(c *Ctx) {
 				return
 			}
 			o.Site(flush.Pos(), "flush of %s", dir.s)
+			// once a message is put on the stack, every path either finds the burst unfinished (countdown not 0)
+			// or flushes: a completed burst never keeps its messages back
+			ppaths, okPP := enumIterPathsU(push, 50000)
+			if !okPP {
+				o.Undecide("the paths of Push could not be enumerated")
+			}
+			reported := false
+			for pi := range ppaths {
+				pt := &ppaths[pi]
+				if rt, isRet := pt.last().(*ssa.Return); !isRet || pt.Loop || rt.Parent() != push {
+					continue
+				}
+				stacked, flushed, zero := -1, false, false
+				for idx, in := range pt.Instrs {
+					if st, ok := in.(*ssa.Store); ok && isFieldStore(st, "test.Bridge", dir.s) && !isNilConst(st.Val) {
+						if _, _, isApp := appendOf(st.Val, 0); isApp && stacked < 0 {
+							stacked = idx
+						}
+					}
+					if in == ssa.Instruction(flush) {
+						flushed = true
+					}
+				}
+				if stacked < 0 {
+					continue
+				}
+				for _, ft := range pt.Conds {
+					cm, ok := normCmp(ft.Cond, ft.Val)
+					if !ok || cm.Op != token.EQL || ft.If == nil || pt.indexOf(ft.If) < stacked {
+						continue
+					}
+					var fl ssa.Value
+					if k, isC := constInt(cm.Y); isC && k == 0 {
+						fl = cm.X
+					} else if k, isC := constInt(cm.X); isC && k == 0 {
+						fl = cm.Y
+					}
+					if fl == nil {
+						continue
+					}
+					if fr, ok := asFieldLoad(pt.value(fl)); ok && fr.SName == "test.Bridge" {
+						if bt, ok := fl.Type().Underlying().(*types.Basic); ok && bt.Info()&types.IsInteger != 0 {
+							zero = true
+						}
+					}
+				}
+				if zero && !flushed && !reported {
+					reported = true
+					o.Fail(pt.last().Pos(), "after a message was put on %s, Push can return with the reorder countdown found at 0 without having appended the stack to the queue: the messages of a completed burst are withheld", dir.s)
+				}
+			}
 			isReset := func(in ssa.Instruction) bool {
 				st, ok := in.(*ssa.Store)
 				return ok && isFieldStore(st, "test.Bridge", dir.s) && isNilConst(st.Val)
@@ -696,6 +781,102 @@ func runC18(c *Ctx) {
 				}
 			})
 		})
+	}
+
+	// R8 Drop removes exactly the requested range
+	if dropM := p.Func("test", "Bridge", "Drop"); dropM != nil {
+		o8 := c.Obl("R8", fname(dropM), "Drop(id, offset, n) replaces the queue of that direction by queue[:offset] followed by queue[min(offset+n, len):]: exactly the requested messages disappear, the ones before and after keep their order", 2)
+		calls := 0
+		instrsOfU(dropM, func(in ssa.Instruction) {
+			st, ok := in.(*ssa.Store)
+			if !ok {
+				return
+			}
+			fr, ok := asFieldAddr(st.Addr)
+			if !ok || fr.SName != "test.Bridge" || !strings.HasPrefix(fr.Field, "queue") {
+				return
+			}
+			calls++
+			o8.Site(in.Pos(), "store to %s", fr.Field)
+			cl, ok := st.Val.(*ssa.Call)
+			h := (*ssa.Function)(nil)
+			if ok {
+				h = cl.Call.StaticCallee()
+			}
+			if h == nil || !inModule(h) || len(h.Blocks) == 0 || len(cl.Call.Args) != 3 {
+				o8.Undecide("the new queue of %s is not computed by a three-argument module helper (queue, offset, n)", fr.Field)
+				return
+			}
+			if !isFieldLoad(cl.Call.Args[0], "test.Bridge", fr.Field) {
+				o8.Fail(in.Pos(), "%s is replaced by a range of another queue", fr.Field)
+			}
+			if len(dropM.Params) < 4 || !sameOrigin(cl.Call.Args[1], ssa.Value(dropM.Params[2])) || !sameOrigin(cl.Call.Args[2], ssa.Value(dropM.Params[3])) {
+				o8.Fail(in.Pos(), "Drop does not hand (offset, n) to the helper in this order")
+			}
+			if dropChecked[h] {
+				return
+			}
+			dropChecked[h] = true
+			// the helper, path by path
+			sP, offP, nP := h.Params[0], h.Params[1], h.Params[2]
+			sym := func(v ssa.Value) (string, bool) {
+				switch {
+				case v == ssa.Value(offP):
+					return "offset", true
+				case v == ssa.Value(nP):
+					return "n", true
+				case isLenOf(v, func(x ssa.Value) bool { return x == ssa.Value(sP) }):
+					return "len", true
+				}
+				return defaultSym(v)
+			}
+			hp, okH := enumPathsU(h, 200)
+			if !okH {
+				o8.Undecide("the paths of %s could not be enumerated", fname(h))
+				return
+			}
+			off, nn, ln := linSym("offset"), linSym("n"), linSym("len")
+			for pi := range hp {
+				pt := &hp[pi]
+				ret, isRet := pt.last().(*ssa.Return)
+				if !isRet || ret.Parent() != h {
+					continue
+				}
+				rv := pt.value(retValAt(ret, 0)[0])
+				d, sarg, isApp := appendOf(rv, 0)
+				var lo, hi *ssa.Slice
+				if isApp {
+					lo, _ = pt.value(d).(*ssa.Slice)
+					hi, _ = pt.value(sarg).(*ssa.Slice)
+				}
+				if lo == nil || hi == nil || lo.X != ssa.Value(sP) || hi.X != ssa.Value(sP) || lo.Low != nil || lo.High == nil || hi.Low == nil || hi.High != nil {
+					o8.Undecide("%s does not return append(s[:a], s[b:]...) on a path (other idiom: not recognised)", fname(h))
+					continue
+				}
+				a := pathLin(pt, lo.High, sym)
+				b := pathLin(pt, hi.Low, sym)
+				// what the path knows: offset+n <= len, or offset+n > len
+				within, beyond := false, false
+				for _, ft := range pt.Conds {
+					if at, pol, ok := atomOfP(ft.Cond, ft.Val, sym, pt.phi); ok && pol && !at.Eq {
+						if at.Form.eq(ln.add(off, -1).add(nn, -1).add(linConst(1), 1)) { // len - offset - n + 1 > 0
+							within = true
+						}
+						if at.Form.eq(off.add(nn, 1).add(ln, -1)) { // offset + n - len > 0
+							beyond = true
+						}
+					}
+				}
+				okB := (within && b.eq(off.add(nn, 1))) || (beyond && b.eq(ln))
+				o8.Site(ret.Pos(), "%s returns append(s[:%s], s[%s:]...) (within=%v beyond=%v)", h.Name(), a, b, within, beyond)
+				if !a.eq(off) || !okB {
+					o8.Fail(ret.Pos(), "%s keeps s[:%s] and s[%s:]: not the queue without the messages [offset, min(offset+n, len))", fname(h), a, b)
+				}
+			}
+		})
+		if calls == 0 {
+			o8.Undecide("Drop does not store a queue")
+		}
 	}
 
 	// R7 Tick: hand over the head only to a waiting reader; dequeue iff handed over
